@@ -7,6 +7,7 @@ import (
 	"runtime"
 
 	netty "github.com/go-netty/go-netty"
+	"github.com/go-netty/go-netty/utils"
 	"github.com/go-netty/go-netty/verifsim/simnet"
 	"github.com/go-netty/go-netty/verifsim/simrt"
 )
@@ -23,6 +24,7 @@ type strictSink struct {
 	Limit    int
 	Exceeded bool
 	ch       netty.Channel
+	Mode     int // 0 io.ReadAll, 1 utils.ToBytes (prefers WriteTo, like the text codec), 2 io.Copy into a buffer, 3 small Read calls
 }
 
 //go:norace
@@ -49,7 +51,28 @@ func (s *strictSink) HandleRead(ctx netty.InboundContext, msg netty.Message) {
 	}
 	switch m := msg.(type) {
 	case io.Reader:
-		data, err := io.ReadAll(m)
+		var data []byte
+		var err error
+		switch s.Mode {
+		case 1:
+			data, err = utils.ToBytes(m)
+		case 2:
+			var b bytes.Buffer
+			_, err = io.Copy(&b, m)
+			data = b.Bytes()
+		case 3:
+			buf := make([]byte, 5)
+			for err == nil {
+				var n int
+				n, err = m.Read(buf)
+				data = append(data, buf[:n]...)
+			}
+			if err == io.EOF {
+				err = nil
+			}
+		default:
+			data, err = io.ReadAll(m)
+		}
 		s.add(data, err)
 		if err != nil {
 			panic(err)
@@ -137,12 +160,12 @@ func runC08(e *Env) {
 	rig := e.NewRig(ChanCfg{}, false)
 	rig.Conn.Frag = e.P(4)
 	refFrames, _ := spec.RefDecode(stream)
-	sink := &strictSink{env: e, conn: rig.Conn, Limit: len(refFrames) + 3}
+	sink := &strictSink{env: e, conn: rig.Conn, Limit: len(refFrames) + 3, Mode: e.P(4)}
 	pl := netty.NewPipeline()
 	pl.AddLast(spec.Codec(), sink)
 	ch := netty.NewChannel()(1, rig.Ctx, pl, rig.Conn, rig.X)
 	sink.ch = ch
-	e.Describe("decoder=%s stream: %s (%d bytes, %d complete frames per reference decoder), ends with %s, read fragmentation mode %d", spec, desc, len(stream), len(refFrames), endName, rig.Conn.Frag)
+	e.Describe("decoder=%s stream: %s (%d bytes, %d complete frames per reference decoder), ends with %s, read fragmentation mode %d, downstream consumes frames via %s", spec, desc, len(stream), len(refFrames), endName, rig.Conn.Frag, []string{"io.ReadAll", "utils.ToBytes", "io.Copy", "5-byte Reads"}[sink.Mode])
 	e.Go("main", func() {
 		pl.ServeChannel(ch)
 		e.Go("peer", func() {
@@ -192,6 +215,20 @@ func runC08(e *Env) {
 			e.Violate("respects-maximum", cls, "delivered frame of %d bytes exceeds the configured limit %d", len(f.Data), limit)
 		}
 	}
+	// the data pulled from the transport for one delivery is bounded by the configured maximum plus its header
+	prev := 0
+	for i, f := range sink.Frames {
+		pulled := f.Consumed - prev
+		prev = f.Consumed
+		bound := spec.Max + spec.Offset + spec.FieldLen + 10
+		if spec.Kind == fkFixed {
+			bound = spec.Fixed
+		}
+		if pulled > bound {
+			e.Violate("bounded-read", cls, "delivery %d pulled %d bytes from the transport for one frame; the configured limit is %d", i, pulled, bound)
+			break
+		}
+	}
 	if sink.Exceeded {
 		e.Violate("no-endless-stream", cls, "more than %d messages were delivered for a stream holding %d frames: the decoder keeps delivering after the stream ended", sink.Limit, len(refFrames))
 	}
@@ -238,7 +275,13 @@ func mutateStream(e *Env, s *FrameSpec, stream []byte, bounds []int) []byte {
 			return append(out, 0xFF, 0xFF, 0xFF, 0xFF, 0xFF, 0xFF, 0xFF, 0xFF, 0xFF, 0xFF, 0xFF, 0xFF, 0xFF)
 		}
 		f := out[start+s.Offset : start+hdr]
-		switch e.P(4) {
+		switch e.P(6) {
+		case 4, 5: // just below the largest positive 64-bit value: header length or adjustment make the sum overflow
+			v := uint64(1<<63-1) - uint64(e.P(hdr+12))
+			if s.FieldLen < 8 {
+				v = s.fieldCapacity() - uint64(e.P(3))
+			}
+			copy(f, s.putLen(v))
 		case 0: // maximal
 			for i := range f {
 				f[i] = 0xFF
